@@ -5,6 +5,7 @@ import IndicatorVerif.Model.Strategies
 import IndicatorVerif.Model.StrategyOps
 import IndicatorVerif.Model.Assets
 import IndicatorVerif.Model.NetMachines
+import IndicatorVerif.Model.NetSma
 /-
   ivdriver: runs the executable models on cases received over a line protocol (stdin → stdout).
   One case per line, one result per line.  Floats travel as 16-digit hex bit patterns.
@@ -437,6 +438,10 @@ def runNet (name fixed cap as bs : String) : String :=
     else (if clean then "ok" else "deadlock") ++ " | " ++ (if out.isEmpty then "-" else ",".intercalate (out.map toString))
   | "msum", some c, some a, some [p, b] =>
     let (term, clean, out) := NetM.msumRun c b.toNat p.toNat a
+    if !term then "fuel"
+    else (if clean then "ok" else "deadlock") ++ " | " ++ (if out.isEmpty then "-" else ",".intercalate (out.map toString))
+  | "sma", some c, some a, some [p, b] =>
+    let (term, clean, out) := NetM.smaRun c b.toNat p.toNat a
     if !term then "fuel"
     else (if clean then "ok" else "deadlock") ++ " | " ++ (if out.isEmpty then "-" else ",".intercalate (out.map toString))
   | "ema", some c, some a, some [p, mul] =>
